@@ -1,5 +1,6 @@
 import SelfiesVerif.Model.Decoder
 import SelfiesVerif.Model.Encoder
+import SelfiesVerif.Model.Api
 import SelfiesVerif.Model.Encoding
 import SelfiesVerif.Model.Config
 import SelfiesVerif.Spec.Derivation
@@ -169,7 +170,7 @@ def handle (st : St) (fields : List String) : St × String :=
   | ["dec", flags, s] =>
     let compat := flags.contains 'c'
     let attrib := flags.contains 'a'
-    let r := decoderFull st.table (decStr s) compat attrib
+    let r := decoderApi st.table (decStr s) compat attrib
     (st, encPy (fun (p : Str × List AttributionMap) =>
       if attrib then encStr p.1 ++ "\t" ++ encMaps p.2 else encStr p.1) r)
   | ["specdec", flags, s] =>
@@ -183,7 +184,7 @@ def handle (st : St) (fields : List String) : St × String :=
   | ["enc", flags, tape, s] =>
     let strict := flags.contains 's'
     let attrib := flags.contains 'a'
-    let r := encoderFull st.table (decStr s) strict attrib (decNatList tape)
+    let r := encoderApi st.table (decStr s) strict attrib (decNatList tape)
     (st, encPy (fun (p : Str × List AttributionMap) =>
       if attrib then encStr p.1 ++ "\t" ++ encMaps p.2 else encStr p.1) r)
   | ["hyp", flags, tape, s] =>
